@@ -519,6 +519,15 @@ func (m *Muxer) Handle(w http.ResponseWriter, r *http.Request) {
 	m.server.handle(w, r)
 }
 
+// codec parameters are read by HTTP handlers while holding the mutex.
+func (m *Muxer) lockParams() {
+	m.mutex.Lock()
+}
+
+func (m *Muxer) unlockParams() {
+	m.mutex.Unlock()
+}
+
 func (m *Muxer) createFirstSegment(nextDTS time.Duration, nextNTP time.Time) error {
 	for _, stream := range m.streams {
 		err := stream.createFirstSegment(nextDTS, nextNTP)
